@@ -95,6 +95,19 @@ CHECKS["C12"] = dict(
     technique="TLA+ invariants on VyMachine model-checked by TLC + TLC validation of logged context depths",
 )
 
+CHECKS["C11"] = dict(
+    text="MC_Input explores VyInput (scopes <<vals, cursor>>, explicit / implicit reads, lambda / function entry, "
+         "leave) for every input list <= 3 and every history up to the bound and checks that the top-level stream is "
+         "cyclic, the cursor counts deliveries and inner implicit reads deliver call arguments. Histories over the "
+         "same actions are compiled to Vyxal programs (the history is the test), run with the outermost get_input "
+         "logged, and TLC replays each history on VyInput and compares the logged deliveries and printed values.",
+    note="Trusted: VyInput's transcription of Input.md/get_input/pop; the compilation of a history to a program "
+         "(harness/c11.py compile_history); histories <= 3/4 exhaustive on 4 input lists, random <= 12 beyond.",
+    ref="DESIGN.md section 6 C11",
+    technique="TLA+ spec (VyInput) model-checked by TLC; spec histories replayed into execute_vyxal and the logged "
+              "reads validated by TLC (Trace_Input)",
+)
+
 NOT_APPLICABLE = {}
 
 DEFAULT_NA = ("check under construction in this round; it will be claimed when its TLA+ module and "
